@@ -44,6 +44,14 @@ def run_bounded(pid, tier):
     # layout given by a LAYOUT rule (blanks and '#') instead of the ws parameter
     lr = dict(params, layout_rule=True, max_len=min(params["max_len"], 4), layout_len=2)
     items.extend((pid, g, lr) for g in corpus.classic() + list(ogs)[::7 if tier == "quick" else 2])
+    # Grammar(ignore_case=True): inputs mix upper and lower case
+    ic = dict(params, ignore_case=True, alphabet="aAbB", max_len=3 if tier == "quick" else 4, layout_len=2)
+    if pid in ("C01", "C10"):   # (forest-level properties would only repeat the same forests under other keys)
+        items.extend((pid, g, ic) for g in corpus.classic() + list(ogs)[::5 if tier == "quick" else 1])
+    # list (non-string) inputs: Python recognisers on list elements, no layout ('x' is an unknown element)
+    if pid in ("C01", "C10"):
+        li = dict(params, list_input=True, alphabet="abx", max_len=min(params["max_len"], 4), layout_len=0)
+        items.extend((pid, g, li) for g in corpus.classic() + list(ogs)[::4 if tier == "quick" else 1])
     results = fw.pmap(glr_grammar_worker, items)
     rule = RULES["C01"].replace("n_p", str(params["n_prods"])).replace("max_len", str(params["max_len"]))
     out = fw.merge_worker_results(results, rule)
